@@ -220,11 +220,18 @@ Bad07 == {[tree |-> Tree07(<<H("x"), u>>), page |-> "home", d |-> Data07, tags |
 (* ---------------- C10 in trees: a literal passed as insert or component argument is escaped ---------------- *)
 EscL == Lit(S("&lt;b&gt;&amp;'q'"), "\"<b>&'q'\"", "str")
 SpL == Lit(S("  padded &amp; \t"), "\"  padded & \t\"", "str")          \* white space at both ends of a literal belongs to it
+\* raw() on the literal: exactly its original text, also as an insert or component argument and in a concatenation
+RawL == Lit(S("<b>&'q'"), "\"<b>&'q'\".raw()", "str")
+RawL2 == Lit(S("a > b \"c\""), "'a > b \"c\"'.raw()", "str")
 Esc10 == {[tree |-> [n \in DOMAIN Comps07 \cup {"home", "layouts/main"} |->
                        CASE n = "home" -> Tpl(Alias("main"), <<InsertE("title", L, 1), InsertB("content", <<P(L), H("|"), Comp(Alias("plain"), <<Arg("name", L)>>, <<>>, 1),
                                                                                                    H("|"), Comp(Alias("def"), <<>>, <<Sl("", <<P(Bin("+", L, StrL("!")))>>)>>, 1)>>, 1)>>)
                          [] n = "layouts/main" -> Tpl(NoUse, LayA) [] OTHER -> Comps07[n]],
-            page |-> "home", d |-> Data07, tags |-> <<"c10", "tree">>] : L \in {EscL, SpL}}
+            page |-> "home", d |-> Data07, tags |-> <<"c10", "tree">>] : L \in {EscL, SpL, RawL, RawL2}}
+         \cup {[tree |-> [n \in DOMAIN Comps07 \cup {"home", "layouts/main"} |->
+                       CASE n = "home" -> Tpl(Alias("main"), <<InsertE("title", Bin("+", L, StrL("!")), 1), InsertB("content", <<P(ArrL(<<L, StrL("z")>>))>>, 1)>>)
+                         [] n = "layouts/main" -> Tpl(NoUse, LayA) [] OTHER -> Comps07[n]],
+            page |-> "home", d |-> Data07, tags |-> <<"c10", "tree", "concat">>] : L \in {EscL, RawL, RawL2}}
 
 (* ---------- C07 / C04: an argument named like a visible variable of another type is bound or refused, never dropped ---------- *)
 PolicyShadow == "shadow"
